@@ -90,7 +90,7 @@ func (p pCmp) match(e Event) bool {
 
 type pStrEq struct {
 	Col, S string
-	Neg bool
+	Neg    bool
 }
 
 func (p pStrEq) match(e Event) bool {
@@ -171,6 +171,7 @@ type Query struct {
 	RCol string
 	ROp  int
 	RLit string
+	Cols []string // columns the query looks at (to recognise answers holding events that lack one of them)
 	// features used to route known classes
 	FloatMeasure bool
 	Dc           bool
@@ -302,6 +303,38 @@ func missingOnly(got, want Obs) bool { // got is a strict subset of want (rows l
 	return len(got.Ids) < len(want.Ids)
 }
 
+// the answer holds events the oracle does not, and every such event lacks a column of the query
+func extraLackColumn(evs []Event, q Query, got, want Obs) bool {
+	if got.Stats || len(q.Cols) == 0 {
+		return false
+	}
+	w := map[int]bool{}
+	for _, x := range want.Ids {
+		w[x] = true
+	}
+	n := 0
+	for _, x := range got.Ids {
+		if w[x] {
+			continue
+		}
+		n++
+		lacks := false
+		for _, e := range evs {
+			if e.Id == x {
+				for _, c := range q.Cols {
+					if _, ok := e.Fields[c]; !ok {
+						lacks = true
+					}
+				}
+			}
+		}
+		if !lacks {
+			return false
+		}
+	}
+	return n > 0
+}
+
 // ---------- one stream = event set + layouts + battery ----------
 type Stream struct {
 	Name    string
@@ -311,6 +344,9 @@ type Stream struct {
 	Queries []Query
 	// per (layout, query) override of the class (known classes inside the main battery, e.g. float measures on the agile tree)
 	ClassOf func(l LayoutCfg, q Query) string
+	// in PQS layouts of this stream every record query must have been served from the persistent-query
+	// results (the server's own log line says "0 raw search N pqs")
+	RequirePqs bool
 }
 
 type streamResult struct {
@@ -478,6 +514,14 @@ func (c *evalCtx) evaluate(st Stream, res streamResult) {
 			}
 			c.sum.Eval(fmt.Sprintf("%s/%s/%s", st.Name, l.Name, q.Text), len(want[qi].Ids) > 0 || len(want[qi].Groups) > 0)
 			c.sum.Count("e2e/" + stream + "/" + q.Kind + "/" + layoutDim(l))
+			if got.Pqs > 0 && got.Raw == 0 {
+				c.sum.Count("e2e/served_from/pqs")
+			} else if got.Raw > 0 {
+				c.sum.Count("e2e/served_from/raw_search")
+			}
+			if st.RequirePqs && l.PQS && q.Stats == nil && got.Err == "" && !(got.Pqs > 0 && got.Raw == 0) {
+				c.sum.HarnessError(fmt.Sprintf("stream %s layout %s query `%s`: expected to be served from persistent-query results, server log says raw=%d pqs=%d", st.Name, l.Name, q.Text, got.Raw, got.Pqs))
+			}
 			// Coq end-to-end case: model answer over the known blocks of this layout
 			if q.Stats == nil && !l.PQS && got.Err == "" && e2eComparable(st.Events, q, l) {
 				var bs []string
@@ -538,6 +582,8 @@ func (c *evalCtx) evaluate(st Stream, res streamResult) {
 				switch {
 				case got.Err != "":
 					class = "query_error_in_layout"
+				case dim == "pqs" && extraLackColumn(st.Events, q, got, want[qi]):
+					class = "pqs_matches_event_without_column"
 				case dim != "base" && baseOK && dim == "raw":
 					class = "dict_vs_raw_differ"
 				case dim != "base" && baseOK && dim == "open":
@@ -779,13 +825,103 @@ func knownStreams(rng *vhlib.Rng) []Stream {
 		Events:  mkEvents(F{"s": sv("x"), "o": iv(4), "k": sv("p")}, F{"t": iv(1), "k": sv("q")}, F{"s": sv("y"), "k": sv("p")}, F{"t": iv(2), "k": sv("q")}),
 		Layouts: simpleLayouts(),
 		Queries: []Query{{Text: "s=x", P: pStrEq{"s", "x", false}, Kind: "text"}, {Text: "s=*", P: pExists{"s"}, Kind: "wild"}, {Text: "o=*", P: pExists{"o"}, Kind: "wild"},
-			{Text: "* | stats sum(o) by k", P: pAll{}, Kind: "stats", Stats: []string{"sum(o)"}, By: "k"}}})
+			{Text: "* | stats sum(o) by k", P: pAll{}, Kind: "stats", Stats: []string{"sum(o)"}, By: "k"},
+			{Text: "o=4*", P: pGlobNum{"o", "4*"}, Kind: "wild"}, {Text: "t=*", P: pExists{"t"}, Kind: "wild"}}})
 	// (h) a column with numbers and non-numeric strings: converted per block
 	out = append(out, Stream{Name: "kh", Known: "mixed_type_column_converted_per_block",
 		Events:  mkEvents(F{"n": iv(5)}, F{"n": sv("abc")}, F{"n": iv(7)}),
 		Layouts: simpleLayouts(),
 		Queries: []Query{cmpQ("n", 0, "5"), cmpQ("n", 4, "4"), {Text: "n=abc", P: pStrEq{"n", "abc", false}, Kind: "text"}}})
 	return out
+}
+
+// persistent-query family: SPARSE events (an event lacks a queried column right after an event whose value
+// matched, in the same block and across blocks), one- and two-column queries registered as persistent before
+// ingest (worker: the index exists, the battery is asked, then the data arrives), PQS layouts open / rotated /
+// several segments / raw columns, against the same queries on layouts where nothing was registered, and the oracle
+func pqsStream(rng *vhlib.Rng, idx int, thorough bool) Stream {
+	svcs := []string{"checkout", "cart", "pay", "Checkout"}
+	stats := []int64{500, 200, 404, 503, 500}
+	var fs []F
+	// the demo prefix, then random sparse events
+	fs = append(fs, F{"svc": sv("checkout"), "status": iv(500), "lat": fv(2.5)}, F{"svc": sv("checkout")}, F{"svc": sv("cart"), "status": iv(500)})
+	n := rng.Range(8, 12)
+	if thorough {
+		n = rng.Range(10, 28)
+	}
+	for len(fs) < n {
+		f := F{}
+		if rng.Chance(85) {
+			f["svc"] = sv(vhlib.Pick(rng, svcs))
+		}
+		if rng.Chance(50) {
+			f["status"] = iv(vhlib.Pick(rng, stats))
+		}
+		if rng.Chance(45) {
+			f["lat"] = fv(float64(rng.Range(1, 40))/4 + 0.125)
+		}
+		if len(f) == 0 || rng.Chance(15) {
+			f["other"] = iv(int64(rng.Range(1, 9)))
+		}
+		fs = append(fs, f)
+	}
+	evs := mkEvents(fs...)
+	and := func(a, b Query) Query {
+		return Query{Text: a.Text + " " + b.Text, P: pAnd{a.P, b.P}, Kind: "bool", Cols: append(append([]string{}, a.Cols...), b.Cols...)}
+	}
+	or := func(a, b Query) Query {
+		return Query{Text: a.Text + " OR " + b.Text, P: pOr{a.P, b.P}, Kind: "bool", Cols: append(append([]string{}, a.Cols...), b.Cols...)}
+	}
+	c1 := func(col string, op int, lit string) Query {
+		q := cmpQ(col, op, lit)
+		q.Cols = []string{col}
+		return q
+	}
+	svcEq := Query{Text: "svc=checkout", P: pStrEq{"svc", "checkout", false}, Kind: "text", Cols: []string{"svc"}}
+	svcCart := Query{Text: "svc=cart", P: pStrEq{"svc", "cart", false}, Kind: "text", Cols: []string{"svc"}}
+	svcGlob := Query{Text: "svc=check*", P: pGlob{"svc", "check*"}, Kind: "wild", Cols: []string{"svc"}}
+	qs := []Query{
+		c1("status", 0, "500"), c1("status", 5, "500"), c1("status", 2, "500"), c1("status", 4, "200"), c1("lat", 4, "2.5"), c1("lat", 3, "2.625"),
+		svcEq, svcGlob,
+		and(svcEq, c1("status", 0, "500")), and(svcEq, c1("status", 5, "500")), and(svcEq, c1("status", 2, "500")),
+		and(svcGlob, c1("status", 0, "500")), and(svcCart, c1("status", 5, "404")),
+		and(svcEq, c1("lat", 4, "2.5")), and(c1("status", 5, "500"), c1("lat", 2, "5.125")),
+		or(svcCart, c1("status", 0, "500")), or(c1("status", 0, "404"), c1("lat", 4, "6.125")),
+	}
+	k := rng.Range(2, 4)
+	layouts := []LayoutCfg{
+		{Name: "raw_one_rot", Every: 0, Final: true, Aggs: true},
+		{Name: "raw_one_open", Every: 0, Final: false, Aggs: true},
+		{Name: fmt.Sprintf("raw_e%d_rot", k), Every: k, Final: true, Aggs: true},
+		{Name: "pqs_one_rot", Every: 0, Final: true, Aggs: true, PQS: true},
+		{Name: "pqs_one_open", Every: 0, Final: false, Aggs: true, PQS: true},
+		{Name: fmt.Sprintf("pqs_e%d_rot", k), Every: k, Final: true, Aggs: true, PQS: true, Windows: true},
+		{Name: fmt.Sprintf("pqs_e%d_open", k), Every: k, Final: false, Aggs: true, PQS: true},
+		{Name: fmt.Sprintf("pqs_e%d_segs", k), Every: k, Rotate: 2, Final: false, Aggs: true, PQS: true},
+		{Name: fmt.Sprintf("pqs_e%d_raw", k), Every: k, Final: true, Aggs: true, PQS: true, Card: 1},
+	}
+	for i := range layouts {
+		layouts[i].Trace = true
+	}
+	return Stream{Name: fmt.Sprintf("pq%d", idx), Events: evs, Layouts: layouts, Queries: qs, RequirePqs: true}
+}
+
+// col=50* on a numeric column: glob on the decimal text of the number
+type pGlobNum struct{ Col, Pat string }
+
+func (p pGlobNum) match(e Event) bool {
+	v, ok := e.Fields[p.Col]
+	if !ok {
+		return false
+	}
+	t := v.S
+	switch v.Kind {
+	case "i":
+		t = strconv.FormatInt(v.I, 10)
+	case "f":
+		t = strconv.FormatFloat(v.F, 'f', -1, 64)
+	}
+	return globMatch(strings.ToLower(p.Pat), strings.ToLower(t))
 }
 
 func runMeta(cfg vhlib.Config, sum *vhlib.Summary, rng *vhlib.Rng) {
@@ -797,6 +933,13 @@ func runMeta(cfg vhlib.Config, sum *vhlib.Summary, rng *vhlib.Rng) {
 	var streams []Stream
 	for i := 0; i < nmain; i++ {
 		streams = append(streams, mainStream(rng.Fork(), i, cfg.Thorough()))
+	}
+	npq := 2
+	if cfg.Thorough() {
+		npq = 20
+	}
+	for i := 0; i < npq; i++ {
+		streams = append(streams, pqsStream(rng.Fork(), i, cfg.Thorough()))
 	}
 	streams = append(streams, knownStreams(rng.Fork())...)
 	// streams run one after the other, the layouts of a stream in parallel worker processes
